@@ -34,8 +34,17 @@ pub fn sentinel(name: &str, arg: &V) -> V {
     }
 }
 
+/// The error the environment fails with at seam call `index`. Mostly a custom message; sometimes
+/// an error that looks like one of the library's own type errors (a user function may return any
+/// error: entry points must pass it through unchanged, not reinterpret it).
 pub fn injected_error(index: usize) -> E {
-    EvalexprError::CustomMessage(format!("injected@{}", index))
+    match index % 6 {
+        1 => EvalexprError::expected_float(Value::Int(index as i64)),
+        3 => EvalexprError::expected_int(Value::Float(index as f64 + 0.5)),
+        4 => EvalexprError::expected_number(Value::String(format!("injected@{}", index))),
+        5 => EvalexprError::VariableIdentifierNotFound(format!("injected@{}", index)),
+        _ => EvalexprError::CustomMessage(format!("injected@{}", index)),
+    }
 }
 
 #[derive(Clone, Copy, Debug, PartialEq, Eq, Hash)]
